@@ -149,18 +149,10 @@ theorem seqR_kept {g : G} {a : R} {k : G → R} (ha : Kept g a.g) (hk : ∀ g1, 
   · exact ha
   · exact ha.trans (hk _)
 
-theorem importTwice_kept (attempt : G → R) (g : G) (h : ∀ g1, Kept g1 (attempt g1).g) :
-    Kept g (importTwice attempt g).g := by
-  unfold importTwice
-  simp only []
-  have h1 : Kept g (importLoad (attempt g)).1.g := by rw [importLoad_g]; exact h g
-  split
-  · exact h1
-  · split
-    · exact h1
-    · apply seqR_kept h1
-      intro g1
-      rw [importLoad_g]; exact h g1
+theorem importOnce_kept (attempt : G → R) (g : G) (h : ∀ g1, Kept g1 (attempt g1).g) :
+    Kept g (importOnce attempt g).g := by
+  unfold importOnce
+  rw [importLoad_g]; exact h g
 
 theorem withParseSetting_kept (p : Parser) (body : G → R) (g : G) (hb : ∀ g1, Kept g1 (body g1).g) :
     Kept g (withParseSetting p body g).g := by
@@ -200,7 +192,7 @@ theorem runStep_kept (env : Env) (fuel : Nat) : ∀ (s : Step) (g : G), quiet s 
   | .imp inner res sub, g, h => by
     simp only [quiet, Bool.and_eq_true] at h
     simp only [runStep]
-    apply importTwice_kept
+    apply importOnce_kept
     intro g0
     apply seqR_kept (Kept.refl g0)
     intro g1
@@ -302,16 +294,10 @@ theorem seqR_saved {a : R} {k : G → R} (ha : SavedOK a) (hk : ∀ g1, g1.saved
 theorem importLoad_saved {r : R} (h : SavedOK r) : SavedOK (importLoad r).1 := by
   unfold SavedOK; rw [importLoad_g, importLoad_obs]; exact h
 
-theorem importTwice_saved (attempt : G → R) (g : G) (hg : g.saved = [])
-    (h : ∀ g1, g1.saved = [] → SavedOK (attempt g1)) : SavedOK (importTwice attempt g) := by
-  unfold importTwice
-  simp only []
-  have h1 : SavedOK (importLoad (attempt g)).1 := importLoad_saved (h g hg)
-  split
-  · exact h1
-  · split
-    · exact h1
-    · exact seqR_saved h1 fun g1 hg1 => importLoad_saved (h g1 hg1)
+theorem importOnce_saved (attempt : G → R) (g : G) (hg : g.saved = [])
+    (h : ∀ g1, g1.saved = [] → SavedOK (attempt g1)) : SavedOK (importOnce attempt g) := by
+  unfold importOnce
+  exact importLoad_saved (h g hg)
 
 theorem withParseSetting_saved (p : Parser) (body : G → R) (g : G) (hb : SavedOK (body { g with raising := p.raising })) :
     SavedOK (withParseSetting p body g) := by
@@ -333,7 +319,7 @@ theorem runStep_saved (env : Env) (hwf : wfEnv env = true) (fuel : Nat) : ∀ (s
   | .imp inner res sub, g, h, hg => by
     simp only [topOK, Bool.and_eq_true] at h
     simp only [runStep]
-    apply importTwice_saved _ g hg
+    apply importOnce_saved _ g hg
     intro g0 hg0
     apply seqR_saved (fun _ => hg0)
     intro g1 hg1
@@ -464,18 +450,11 @@ theorem importLoad_sim {r r' : R} (h : Sim r r') :
     · exact ⟨⟨h1, h2, h3⟩, rfl⟩
   · exact ⟨⟨h1, h2, h3⟩, rfl⟩
 
-theorem importTwice_sim (attempt attempt' : G → R) (g g' : G) (hg : Agree g g')
+theorem importOnce_sim (attempt attempt' : G → R) (g g' : G) (hg : Agree g g')
     (h : ∀ g g', Agree g g' → Sim (attempt g) (attempt' g')) :
-    Sim (importTwice attempt g) (importTwice attempt' g') := by
-  unfold importTwice
-  simp only []
-  obtain ⟨h1, h2⟩ := importLoad_sim (h g g' hg)
-  rw [← h2, ← h1.1]
-  split
-  · exact h1
-  · split
-    · exact h1
-    · exact seqR_sim h1 fun g1 g1' hg1 => (importLoad_sim (h g1 g1' hg1)).1
+    Sim (importOnce attempt g) (importOnce attempt' g') := by
+  unfold importOnce
+  exact (importLoad_sim (h g g' hg)).1
 
 theorem decode_sim (inp : Input) (g g' : G) (k k' : G → R) (hg : Agree g g') (hk : Sim (k g) (k' g')) :
     Sim (decode inp g k) (decode inp g' k') := by
@@ -520,7 +499,7 @@ theorem runStep_sim (env : Env) (fuel : Nat) : ∀ (s : Step) (g g' : G), Agree 
     split <;> exact ⟨rfl, rfl, h⟩
   | .imp inner res sub, g, g', h => by
     simp only [runStep]
-    apply importTwice_sim _ _ g g' h
+    apply importOnce_sim _ _ g g' h
     intro g0 g0' h0
     refine seqR_sim (a := ⟨.ok (), g0, [.seen g0.raising]⟩) (a' := ⟨.ok (), g0', [.seen g0'.raising]⟩) ⟨rfl, ?_, h0⟩ ?_
     · simp [h0.1]
@@ -658,15 +637,9 @@ theorem seqR_head (a : R) (k : G → R) (x : Obs) (h : a.obs.head? = some x) :
     | nil => simp [ha] at h
     | cons y ys => simp [ha] at h ⊢; exact h
 
-theorem importTwice_head (attempt : G → R) (g : G) (x : Obs) (h : (attempt g).obs.head? = some x) :
-    (importTwice attempt g).obs.head? = some x := by
-  unfold importTwice
-  simp only []
-  have h1 : (importLoad (attempt g)).1.obs.head? = some x := by rw [importLoad_obs]; exact h
-  split
-  · exact h1
-  · split
-    · exact h1
-    · exact seqR_head _ _ _ h1
+theorem importOnce_head (attempt : G → R) (g : G) (x : Obs) (h : (attempt g).obs.head? = some x) :
+    (importOnce attempt g).obs.head? = some x := by
+  unfold importOnce
+  rw [importLoad_obs]; exact h
 
 end CssVerif.Globals
